@@ -62,6 +62,10 @@ func TestC13(t *testing.T) {
 			mon.Emit(r, "request", c13P{Op: op, H: 20, Peers: []behaviour{{Kind: k, K: 2, DelayMs: 10}, {Kind: bHonest, DelayMs: 2500}}}, "request")
 		}
 	}
+	for _, k := range []string{bOtherHash, bHonest, bShifted, bNotFound, bExtra} {
+		mon.Emit(r, "request", c13P{Op: "getnil", H: 20, Peers: []behaviour{{Kind: k, K: 1}}}, "request")
+		mon.Emit(r, "request", c13P{Op: "getnil", H: 20, Peers: []behaviour{{Kind: k, K: 1, DelayMs: 5}, {Kind: bHonest, DelayMs: 50}}}, "request")
+	}
 	rng := r.Rand("c13")
 	for i := 0; i < r.N(650, 30000); i++ {
 		p := c13P{Op: []string{"get", "byheight"}[rng.Intn(2)], H: 2 + uint64(rng.Intn(40)), Metrics: i%5 == 4}
@@ -103,6 +107,17 @@ func c13Run(c *mon.Case, p c13P) {
 		t0 := time.Now()
 		var got H
 		var err error
+		if p.Op == "getnil" {
+			// no header has an empty hash: whatever the peers send, this cannot succeed
+			got, err = cw.ex.Get(ctx, nil)
+			cancel()
+			c.Count("requests", 1)
+			c.Class("getnil peers=%d => err=%v", len(p.Peers), err != nil)
+			if err == nil {
+				c.Violation("get-with-nil-hash-returns-a-header", fmt.Sprintf("Get(nil) returned %v with a nil error", got), nil)
+			}
+			return
+		}
 		if p.Op == "get" {
 			got, err = cw.ex.Get(ctx, want.Hash())
 		} else {
